@@ -651,7 +651,7 @@ def getitem(ex, obj, key):
         return ex.call_qual(f"{obj.cls}.__getitem__", [key], {}, self_obj=obj)
     if hasattr(obj, "getitem"):
         return obj.getitem(ex, key)
-    raise SymRaise("TypeError", f"{type(obj).__name__} object is not subscriptable")
+    raise program_type_error(obj, f"{type(obj).__name__} object is not subscriptable")
 
 
 def set_region(ex, arr, region, val, vinit=None):
